@@ -17,7 +17,14 @@ type c13Val struct {
 }
 
 func c13Value(r *core.Rng, next func() any) c13Val {
-	inner := func() stackage.Stack { return NewStack(Kinds[r.Intn(5)], 0).Push(next()) }
+	inner := func() stackage.Stack {
+		in := NewStack(Kinds[r.Intn(5)], 0).Push(next())
+		if r.Chance(1, 4) {
+			// the OFFERED stack's own option says nothing about whether the receiver takes it
+			in.SetNoNesting(true)
+		}
+		return in
+	}
 	switch r.Intn(12) {
 	case 0:
 		return c13Val{inner(), true, "Stack"}
